@@ -48,11 +48,29 @@ TruthsSN(n) == {[lang |-> lg, title |-> tc[1], copyright |-> tc[2], fr |-> 0, tr
               cs \in {0, 1}, rs \in {0, 1}, ca \in {NoA, A2}}
 TruthsS == UNION {TruthsSN(n) : n \in 1..3}
 
-Truths(fam) == CASE fam = "T" -> TruthsT [] fam = "B" -> TruthsB [] fam = "S" -> TruthsS
+\* L: every language the library maps (1..5) and one it does not (6), with and without title
+TruthsL == {[Base EXCEPT !.lang = lg, !.title = ti, !.cues = <<Cue(0, 1500, 0, 0, NoA, Simple)>>] : lg \in 0..6, ti \in {0, 1}}
+
+\* A: every tts:* attribute the library carries, alone on a style / a region / a paragraph / a run, and next to its
+\* neighbour in the alphabet with another value (a miscopied field shows as a missing or an extra attribute)
+AllAttrs == <<"backgroundColor", "color", "direction", "display", "displayAlign", "extent", "fontFamily", "fontSize", "fontStyle", "fontWeight",
+              "lineHeight", "opacity", "origin", "overflow", "padding", "showBackground", "textAlign", "textDecoration", "textOutline",
+              "unicodeBidi", "visibility", "wrapOption", "writingMode", "zIndex">>
+One(a, v) == [c \in {a} |-> v]
+Two(a, b) == [c \in {a, b} |-> IF c = a THEN 1 ELSE 2]
+AttrSets == {One(AllAttrs[i], 1) : i \in DOMAIN AllAttrs} \cup {Two(AllAttrs[i], AllAttrs[(i % Len(AllAttrs)) + 1]) : i \in DOMAIN AllAttrs}
+TruthsA == {[Base EXCEPT !.styles = <<[id |-> 1, parent |-> 0, attrs |-> at]>>,
+                         !.regions = <<[id |-> 1, style |-> 0, attrs |-> IF where = "region" THEN at ELSE NoA]>>,
+                         !.cues = <<Cue(1000, 2000, 1, 1, IF where = "cue" THEN at ELSE NoA, <<<<R(1, 0, IF where = "run" THEN at ELSE NoA), R(2, 1, NoA)>>>>)>>] :
+              at \in AttrSets, where \in {"style", "region", "cue", "run"}}
+
+Truths(fam) == CASE fam = "A" -> TruthsA [] fam = "T" -> TruthsT [] fam = "B" -> TruthsB [] fam = "S" -> TruthsS [] fam = "L" -> TruthsL
 Vars(fam) == IF Wide THEN [indents |-> BOOLEAN, prefixes |-> BOOLEAN] ELSE
              CASE fam = "T" -> [indents |-> {FALSE}, prefixes |-> {TRUE}]
                [] fam = "B" -> [indents |-> BOOLEAN, prefixes |-> {TRUE}]
                [] fam = "S" -> [indents |-> BOOLEAN, prefixes |-> BOOLEAN]
+               [] fam = "L" -> [indents |-> BOOLEAN, prefixes |-> BOOLEAN]
+               [] fam = "A" -> [indents |-> {FALSE}, prefixes |-> BOOLEAN]
 
 Init == g \in Truths(FAM) /\ d = <<>> /\ phase = "init"
 Next == phase = "init" /\ phase' = "done" /\ d' \in Renderings(g, Vars(FAM), FAM = "T") /\ UNCHANGED g
